@@ -349,4 +349,4 @@ def checks(h):
         "cfg": st.lists(st.integers(0, 1), min_size=4, max_size=4),
         "order": st.one_of(st.none(), st.lists(st.integers(0, 7), min_size=1, max_size=8)),
     })
-    h.hyp("driver", strat, lambda r: run(h, r), h.scale(60, 3000), 1)
+    h.hyp("driver", strat, lambda r: run(h, r), h.scale(60, 600), 1)
